@@ -60,6 +60,8 @@ KEY_NEGGEN = "C08:generic-layout-negative-delta-zero-extended:sevm-array-hash-mi
 KEY_DOWN = "C08:generic-layout-unrecognised-hash-constant-plus-index:sevm-array-downward-bucket-crossing"
 KEY_NESTPACK = "C08:solidity-layout-nested-packed-keys-same-total-width-share-cell:sevm-string-string-mapping"
 KEY_NESTPACK_G = "C08:generic-layout-nested-packed-keys-same-total-width-share-cell:sevm-string-string-mapping"
+KEY_GNEST = "C08:generic-layout-concrete-packed-preimage-with-hashed-base-not-decoded:sevm-bytes1-key-in-array-element"
+GENERIC_SPLIT_OK = None    # does GenericStorage.decode split a fully concrete preimage key ‖ base and decode the base? set by correspond
 KEY_LARGE = "C08:large-preimage-hash-not-tracked:sevm-bytes-key-preimage-over-128-bytes"
 REPORT_LARGE_PREIMAGE = True    # sha3_data's documented "skip tracking hashes with large preimages" breaks read-after-write: reported (known finding)
 KEY_TAXIOM = "C08:solidity-layout-transient-emptiness-axiom-constrains-symbolic-persistent-storage:sevm-mapping"
@@ -252,7 +254,8 @@ class Prog:
     meta: dict = field(default_factory=dict)
 
     def nloads(self):
-        return sum(1 for s in self.stmts if s[0] in ("sload", "tload")) + sum(s[2] for s in self.stmts if s[0] == "call")
+        return (sum(1 for s in self.stmts if s[0] in ("sload", "tload")) + sum(s[2] for s in self.stmts if s[0] == "call")
+                + sum(s[2] + 1 for s in self.stmts if s[0] == "callf"))
 
     def code(self):
         from vlib import asm
@@ -271,6 +274,20 @@ class Prog:
                           ("push", 32 * s[2]), ("push", OUT + 32 * k), "CALLDATASIZE", ("push", CDBUF), ("push", 0), ("push", ACCOUNTS[s[1]]),
                           ("push", 0xFFFFFF), "CALL", "POP"]
                 k += s[2]
+            elif op == "callf":
+                # like "call", and the success flag is an output word too (before the callee's words)
+                items += ["CALLDATASIZE", ("push", 0), ("push", CDBUF), "CALLDATACOPY",
+                          ("push", 32 * s[2]), ("push", OUT + 32 * (k + 1)), "CALLDATASIZE", ("push", CDBUF), ("push", 0), ("push", ACCOUNTS[s[1]]),
+                          ("push", 0xFFFFFF), "CALL", ("push", OUT + 32 * k), "MSTORE"]
+                k += s[2] + 1
+            elif op == "revert_if_eq":
+                lbl = asm.fresh("go")
+                items += emit_expr(s[1]) + [("push", s[2]), "EQ", "ISZERO", ("ref", lbl), "JUMPI", ("push", 0), ("push", 0), "REVERT", ("label", lbl)]
+            elif op == "revert_if_lt":
+                lbl = asm.fresh("go")
+                items += [("push", s[2])] + emit_expr(s[1]) + ["LT", "ISZERO", ("ref", lbl), "JUMPI", ("push", 0), ("push", 0), "REVERT", ("label", lbl)]
+            elif op == "revert":
+                items += [("push", 0), ("push", 0), "REVERT"]
             elif op == "branch_prefix":
                 # if (u != 0) goto B;  if (x == c) goto A;  stop;  A: stop;  B: <the rest>
                 # halmos explores the fall-through side first: the side B is a pending sibling while the other side
@@ -294,6 +311,8 @@ class Prog:
                 loc_kinds(s[1], out)
             if s[0] == "branch_prefix":
                 out.add("branch-prefix")
+            if s[0] in ("revert_if_eq", "revert_if_lt", "revert"):
+                out.add("reverting-callee")
         return out
 
     def constants(self):
@@ -303,6 +322,8 @@ class Prog:
                 out |= {s[2], (s[2] + 1) % W, (s[2] - 1) % W}
             if s[0] == "branch_prefix":
                 out |= {s[3], (s[3] + 1) % W, (s[3] - 1) % W}
+            if s[0] in ("revert_if_eq", "revert_if_lt"):
+                out |= {s[2], (s[2] - 1) % W}
         return out
 
     def describe(self):
@@ -355,6 +376,9 @@ class LocGen:
             self.layout.append((slot, ty))
             slot += type_size(ty) + rng.choice([0, 0, 2])
         self.registered = set()   # concrete hashes computed at run time so far (straight-line prefix)
+        # large constant indices are only safe where no equality on the path can pin the symbols of the base: a pinned base makes the
+        # hash concrete and hash + large constant folds into a literal beyond OffsetMap's reach (known finding KEY_BIGOFF)
+        self.allow_big = True
 
     def key_expr(self, small=True):
         r = self.rng
@@ -381,7 +405,7 @@ class LocGen:
         KEY_OM / KEY_BIGOFF, replayed by the directed corpus)"""
         r = self.rng
         k = r.random()
-        if not big_ok and k >= 0.92:
+        if not (big_ok and self.allow_big) and k >= 0.92:
             k = 0.6
         if k < 0.4 and self.nargs:
             return ("and", ("a", r.randrange(self.nargs)), r.choice([3, 0xFF, 0xFFFF]))
@@ -416,9 +440,10 @@ class LocGen:
                         ws = (("a", r.randrange(self.nargs)),) + ws[1:]
                     key = ("words", ty[1], ws)
                 elif ty[1] != 32 and not expr_symbolic(key) and self.nargs:
-                    # a packed key whose whole preimage is concrete is decoded as a scalar slot (known finding
-                    # KEY_PACKED, replayed by the directed corpus): generated packed keys are symbolic
+                    # a packed key whose whole preimage is concrete: known findings KEY_PACKED (solidity layout, repaired in /repo) and
+                    # KEY_GNEST (generic layout, hashed base), replayed by the directed corpus: generated packed keys are symbolic
                     key = ("a", r.randrange(self.nargs))
+                key = self.key_tail_rule(key, cur, ty[1])
                 cur = ("map", key, cur, ty[1])
                 ty = ty[2]
             elif t == "arr":
@@ -477,6 +502,18 @@ class LocGen:
             return ("off", self.render(loc[1]), loc[2], loc[3])
         return loc
 
+    def key_tail_rule(self, key, base, kb):
+        """generic layout, known finding KEY_GNEST (replayed by the directed corpus): in a packed / long key (preimage not 64 bytes)
+        the concrete low tail of the key is fused with a concrete HASHED base word into one constant that GenericStorage.decode does
+        not decode like the unfused spelling — over such a base the last key word stays a plain symbolic word"""
+        if GENERIC_SPLIT_OK or kb == 32 or not self.nargs or base[0] == "lit" or loc_symbolic(base):
+            return key
+        plain = ("a", self.rng.randrange(self.nargs))
+        if key[0] == "words":
+            last = key[2][-1]
+            return key if last[0] == "a" else ("words", key[1], tuple(key[2][:-1]) + (plain,))
+        return key if key[0] == "a" else plain
+
     def respell(self, loc):
         """the same element through another spelling of its keys: symbolic words ↔ small constants (equal for inputs from
         the colliding domain {0,1,2}); a fully concrete key makes the hash a constant for halmos"""
@@ -494,10 +531,13 @@ class LocGen:
                 key = flip(key)
             elif loc[3] == 32 and expr_symbolic(key) and key[0] in ("shl", "or", "and") and r.random() < 0.6:
                 key = ("c", ev_expr(key, [r.choice([0, 1, 2])] * max(self.nargs, 1)))     # the all-concrete spelling for x ∈ {0,1,2}
-            return ("map", key, self.respell(loc[2]), loc[3])
+            nb = self.respell(loc[2])
+            return ("map", self.key_tail_rule(key, nb, loc[3]), nb, loc[3])
         if t == "arr":
             return ("arr", self.respell(loc[1]))
         if t == "off":
+            if loc[2][0] == "c" and loc[2][1] >= (1 << 15):
+                return loc      # a large constant index stays over a symbolic base (a concrete base would fold it: KEY_BIGOFF)
             return ("off", self.respell(loc[1]), loc[2], loc[3])
         return loc
 
@@ -566,11 +606,12 @@ def gen_program(rng, pool):
     # an equality guard makes halmos concretize the guarded word in later hash preimages; with a packed key that turns the
     # whole preimage concrete (known finding KEY_PACKED, replayed by the directed corpus): no equality guards then
     has_packed = any(type_has_packed(ty) for _, ty in g.layout)
+    g.allow_big = has_packed or rng.random() < 0.5      # programs with large constant indices get no equality guards (see LocGen)
     for i in range(n_ops):
         r = rng.random()
         if r < 0.12 and nargs:
             e = ("a", rng.randrange(nargs)) if rng.random() < 0.7 else ("and", ("a", rng.randrange(nargs)), 0xFF)
-            if rng.random() < 0.6 and not has_packed:
+            if rng.random() < 0.6 and not has_packed and not g.allow_big:
                 stmts.append(("require_eq", e, rng.choice([0, 1, 2, 3, 5])))
             else:
                 stmts.append(("require_lt", e, rng.choice([2, 3, 4, 256])))
@@ -1225,6 +1266,22 @@ def core_directed():
     for p in three_ways_cases():
         out.append((p, None))
     out.append((packed_concrete_case(), KEY_PACKED))
+    # generic layout: packed key with a fully concrete preimage whose base is itself a hash (mapping(bytes1 => uint) as element 0
+    # of the array at slot 2) against the symbolic spelling of the same key
+    pkn = lambda k: ("map", k, ("arr", ("lit", 2)), 1)
+    out.append((Prog([("sstore", pkn(("c", 1)), ("c", 0x66)), ("sload", pkn(("a", 0))), ("sstore", pkn(("a", 0)), ("c", 0x67)), ("sload", pkn(("c", 1))),
+                      ("sload", pkn(("c", 2)))], 1, name="packed-key-concrete-preimage-hashed-base"), KEY_GNEST + "@generic"))
+    # the same finding through a fused constant `key tail ‖ hashed base`: a 31-byte key with a concrete low tail, and a 64-byte key
+    # whose last word is concrete, over the inner array of the array at slot 0 — against the spelling with a symbolic index in the base
+    inner = lambda i: ("arr", ("off", ("arr", ("lit", 0)), i, False))
+    k31 = ("and", ("a", 0), W - (1 << 96))
+    out.append((Prog([("tstore", ("map", k31, inner(("c", 0)), 31), ("c", 0x71)), ("tload", ("map", k31, inner(("a", 1)), 31)),
+                      ("sstore", ("map", k31, inner(("a", 1)), 31), ("c", 0x72)), ("sload", ("map", k31, inner(("c", 0)), 31))], 2,
+                     name="packed-key-concrete-tail-fused-with-hashed-base"), KEY_GNEST + "@generic"))
+    k64 = ("words", 64, (("a", 0), ("c", 2)))
+    out.append((Prog([("sstore", ("map", k64, ("off", ("arr", ("lit", 0)), ("c", 1), False), 64), ("c", 0x73)),
+                      ("sload", ("map", k64, ("off", ("arr", ("lit", 0)), ("and", ("a", 1), 3), True), 64))], 2,
+                     name="long-key-concrete-last-word-fused-with-hashed-base"), KEY_GNEST + "@generic"))
     for p in branch_prefix_cases():
         out.append((p, None))
     # key words that are part symbolic / part concrete against the all-concrete spelling
@@ -1461,14 +1518,28 @@ def multi_directed():
     out.append(Multi({"A": Prog([("call", "B", 2), ("tload", m(("a", 0))), ("sload", m(("a", 0))), ("tload", ("lit", 3)), ("tstore", ("lit", 3), ("c", 9))], 1),
                       "B": Prog([("tload", m(("a", 0))), ("tstore", m(("a", 0)), ("c", 0x51)), ("sstore", m(("a", 0)), ("c", 0x52)),
                                  ("tstore", ("lit", 3), ("c", 7)), ("tload", m(("a", 0)))], 1)}, 1, name="multi-account-callee-stores-caller-loads"))
+    # a subcall that forks on its calldata and FAILS on several paths: every failing path gets its own restored storage
+    rev = Prog([("tstore", ("lit", 0), ("c", 0x99)), ("sstore", ("lit", 0), ("c", 0x98)), ("revert_if_eq", ("a", 0), 1), ("revert_if_eq", ("a", 0), 2), ("revert",)], 1)
+    out.append(Multi({"A": Prog([("callf", "B", 0), ("sload", ("lit", 0)), ("tload", ("lit", 0)), ("sstore", ("lit", 0), ("c", 0x11)), ("tstore", ("lit", 0), ("c", 0x12)),
+                                 ("sload", ("lit", 0)), ("tload", ("lit", 0))], 1), "B": rev}, 1, name="multi-account-callee-reverts-on-several-paths-scalar"))
+    rev2 = Prog([("sstore", m(("a", 0)), ("c", 0x97)), ("revert_if_eq", ("a", 0), 0), ("revert_if_eq", ("a", 1), 1), ("tload", m(("a", 0))), ("revert_if_eq", ("a", 1), 2)], 2)
+    out.append(Multi({"A": Prog([("sstore", m(("c", 1)), ("c", 0x21)), ("tstore", el(("c", 2)), ("c", 0x22)), ("callf", "B", 1),
+                                 ("sload", m(("a", 0))), ("tload", el(("a", 1))), ("sstore", m(("a", 0)), ("addc", ("a", 1), 0x30)), ("tstore", el(("a", 1)), ("c", 0x31)),
+                                 ("sload", m(("c", 1))), ("tload", el(("c", 2))), ("sload", m(("c", 0)))], 2), "B": rev2}, 2,
+                     name="multi-account-callee-reverts-on-several-paths-mapping-array"))
     return out
 
 
 def gen_multi(rng, pool):
     nargs = rng.choice([1, 2])
     g = LocGen(rng, nargs, pool)
-    locs = [g.location() for _ in range(rng.randrange(1, 4))] + [("lit", rng.choice([0, 1, 3]))]
     names = ["A", "B"] + (["C"] if rng.random() < 0.35 else [])
+    reverting = rng.random() < 0.4
+    # equality forks pin calldata words on the failing paths: only without packed keys (KEY_PACKED / KEY_GNEST) and without large
+    # constant indices (KEY_BIGOFF), as for the equality guards of gen_program; otherwise the callee forks on `<`
+    eq_forks = reverting and not any(type_has_packed(ty) for _, ty in g.layout) and rng.random() < 0.7
+    g.allow_big = not eq_forks
+    locs = [g.location() for _ in range(rng.randrange(1, 4))] + [("lit", rng.choice([0, 1, 3]))]
     progs = {}
     for i in reversed(range(len(names))):
         n = names[i]
@@ -1481,6 +1552,23 @@ def gen_multi(rng, pool):
             stores.append((rng.choice(["tstore", "tstore", "sstore"]), g.render(strip_const(loc)), v))
         reads = [(rng.choice(["tload", "tload", "sload"]), g.render(strip_const(loc))) for loc in rng.sample(locs, rng.randrange(1, len(locs) + 1))]
         call = [("call", names[i + 1], progs[names[i + 1]].nloads())] if i + 1 < len(names) else []
+        if reverting and i == len(names) - 1:
+            # the innermost callee forks on its calldata and fails on several paths
+            for _ in range(rng.randrange(2, 4)):
+                fork = ("revert_if_eq", ("a", rng.randrange(nargs)), rng.choice([0, 1, 2])) if eq_forks else \
+                    ("revert_if_lt", ("a", rng.randrange(nargs)), rng.choice([1, 2, 3]))
+                body.insert(rng.randrange(len(body) + 1), fork)
+            body += stores
+            if rng.random() < 0.5:
+                body.append(("revert",))
+            progs[n] = Prog(body + reads, nargs)
+            continue
+        if reverting and i == len(names) - 2:
+            # its caller reads, writes and reads again after the (possibly failed) call
+            call = [("callf", names[i + 1], progs[names[i + 1]].nloads())]
+            cut = rng.randrange(len(stores) + 1)
+            progs[n] = Prog(body + stores[:cut] + call + reads + stores[cut:] + reads, nargs)
+            continue
         if rng.random() < 0.3:      # reverse order: the callee runs before this account's stores
             body += call + stores + reads
         else:
@@ -1603,6 +1691,10 @@ def multi_account_family(ctx, D, pool, stored_multi, cases=None):
                             break
                     except D.Unknown as u:
                         ctx.count("multi:eval-unknown:" + str(u)[:20])
+                        if str(u).startswith("storage_"):
+                            # a storage array symbol that this path's conditions do not define (e.g. a store made on a sibling path)
+                            bad = ("tx1", "undefined-storage-symbol-in-loaded-value", [str(u)[:60]], [])
+                            break
                         continue
                     for j1, p2s in second:
                         if j1 != j:
@@ -1622,12 +1714,20 @@ def multi_account_family(ctx, D, pool, stored_multi, cases=None):
                                     break
                             except D.Unknown as u:
                                 ctx.count("multi:eval-unknown:" + str(u)[:20])
+                                if str(u).startswith("storage_"):
+                                    bad = ("tx2", "undefined-storage-symbol-in-loaded-value", [str(u)[:60]], [])
+                                    break
                         if bad:
                             break
                     if bad:
                         break
                 ctx.case(("multi", tuple(sorted(mp.contracts().items())), layout, tuple(inp.args)))
-                if bad:
+                if bad and not mp.name and layout == "generic" and "below-hash+index" in mp.kinds() and bad[1] == "loaded-value":
+                    # generated (hash - k) + i in the generic layout: the known zero-extension finding, as in the single-account programs
+                    ctx.violation(KEY_NEGGEN, f"[generated multi-account program / generic] (hash - k) + i: SEVM {bad[2]} vs EVM {bad[3]}",
+                                  {"multi": mp.describe(), "layout": layout, "args": [hex(a) for a in inp.args], "tx": bad[0], "sevm": bad[2], "evm": bad[3]})
+                    ctx.count("multi:mismatch-known-neggen")
+                elif bad:
                     tx, kind, got, exp = bad
                     key = f"C08|multi-account|{layout}|{tx}|{kind}|" + (f"directed:{mp.name}" if mp.name else "kinds:" + ",".join(sorted(mp.kinds())))
                     ctx.violation(key, f"[{mp.name or 'generated'} / {layout}] accounts A, B(, C) deployed before a transaction started with run_message: in {tx} "
@@ -1737,6 +1837,22 @@ def packed_literal_split():
     return len(d) == 3
 
 
+def generic_literal_split():
+    """does GenericStorage.decode decode the base word of a fully concrete packed preimage f_sha3_264(<key ‖ keccak(2)>)?"""
+    import z3
+    from vlib import sevmdrv
+
+    sevm, args = sevmdrv.mk_sevm(storage_layout="generic")
+    ex = sevmdrv.mk_ex(sevm, args, b"\x00")
+    f264 = z3.Function("f_sha3_264", z3.BitVecSort(264), z3.BitVecSort(256))
+    h2 = slot_of(("arr", ("lit", 2)), ())
+    try:
+        d = sevm.storage_model.decode(ex, f264(z3.BitVecVal((1 << 256) + h2, 264)))
+    except Exception:  # noqa: BLE001
+        return False
+    return d.size() > 264 + 257
+
+
 def harvest_literals():
     """integer literals in the source of the functions under test (and ±1)"""
     out = set()
@@ -1797,6 +1913,10 @@ def correspond(ctx):
     global CONCRETE_PACKED_OK
     CONCRETE_PACKED_OK = packed_literal_split()
     model_variant = variant if variant in ("current", "fixed") else "current"
+    global GENERIC_SPLIT_OK
+    GENERIC_SPLIT_OK = generic_literal_split()
+    if GENERIC_SPLIT_OK:
+        model_variant += "+gsplit"      # /repo carries the repair of KEY_GNEST
     if CONCRETE_PACKED_OK:
         model_variant += "+packed"      # /repo carries the repair of KEY_PACKED: the model uses normalizeMSplit
     ctx.extra["model_variant"] = model_variant
@@ -1916,6 +2036,11 @@ def correspond(ctx):
                         "sload(keccak(0x01 ‖ 4)) returns 0 (EVM 0x66): a hash whose whole preimage is concrete comes back from reverse_lookup as "
                         "f_sha3_264(<constant>), which decode does not split (it expects a Concat), so the location becomes the scalar cell at "
                         "the literal hash instead of (4, key, 0)",
+            KEY_GNEST: "generic layout: mapping(bytes1 => uint) as element 0 of the dynamic array at slot 2 (base = keccak(2)): sstore(keccak(0x01 ‖ keccak(2)), 0x66) "
+                       "with the concrete key, then sload(keccak(bytes1(a0) ‖ keccak(2))) returns 0 for a0 == 1 (EVM 0x66), and after sstore(symbolic spelling, 0x67) "
+                       "the load through the concrete spelling returns the stale 0x66: the registered hash comes back from reverse_lookup as "
+                       "f_sha3_264(<constant>), and GenericStorage.decode keeps the whole constant (simple_hash(decode(const))) without decoding its low "
+                       "256 bits, while the symbolic spelling Concat(key, keccak(2)) decodes the base to simple_hash(2): two cells for one slot",
             KEY_LARGE: "sha3_data returns the hash of a concrete preimage longer than 128 bytes as a bare constant without registering it, so the "
                        "element of mapping(bytes => uint) reached with a concrete 97-byte key is a scalar slot while the same element reached with a "
                        "symbolic key decodes to the mapping cell: store through one spelling, load through the other returns 0 / a stale value",
